@@ -10,7 +10,7 @@
 using namespace unifex;
 
 namespace {
-struct Ledger { int ctor = 0, dtor = 0, copies = 0, moves = 0; int throw_at_move = 0; int live() const { return ctor - dtor; } };
+struct Ledger { int ctor = 0, dtor = 0, copies = 0, moves = 0; int throw_at_move = 0; int throw_at_copy = 0; bool copies_allowed = false; int live() const { return ctor - dtor; } };
 Ledger* L;
 struct injected {};
 
@@ -27,7 +27,7 @@ template <int Pad, int Align, bool NothrowMove>
 struct alignas(Align) Obj {
   int val; bool moved_from = false; char pad[Pad] = {};
   explicit Obj(int v) : val(v) { ++L->ctor; }
-  Obj(const Obj& o) : val(o.val) { ++L->ctor; ++L->copies; }
+  Obj(const Obj& o) : val(o.val) { ++L->copies; if (L->throw_at_copy && L->copies == L->throw_at_copy) throw injected{}; ++L->ctor; }
   Obj(Obj&& o) noexcept(NothrowMove) : val(o.val) {
     if (!NothrowMove) { ++L->moves; if (L->throw_at_move && L->moves == L->throw_at_move) throw injected{}; }
     else ++L->moves;
@@ -58,7 +58,7 @@ void run_seq(int depth, bool with_swap) {
     led.throw_at_move = fault;
     std::string trace;
     for (int step = 0; step < depth; ++step) {
-      int op = vmc::choose(with_swap ? 8 : 7);
+      int op = vmc::choose(with_swap ? 8 : 9);   // any_object additionally: assignment from a value (copy / move)
       int a = vmc::choose(2), b = 1 - a;
       try {
         switch (op) {
@@ -83,8 +83,27 @@ void run_seq(int depth, bool with_swap) {
             if (w[a] && r[a].valid) { int v = 900 + step; set_val(*w[a], v); r[a].val = v; }
             break;
           case 6: trace += "destroy "; w[a].reset(); r[a] = Ref{}; break;
-          case 7: trace += "swap ";
-            if constexpr (std::is_same_v<W, AU>) { if (w[a] && w[b]) { w[a]->swap(*w[b]); std::swap(r[a], r[b]); } }
+          case 7:
+            if constexpr (std::is_same_v<W, AU>) { trace += "swap "; if (w[a] && w[b]) { w[a]->swap(*w[b]); std::swap(r[a], r[b]); } }
+            else if (w[a]) {
+              // wrapper = lvalue: the wrapped object is replaced by a copy; the copy may throw (chosen)
+              int ty = vmc::choose(3); int v = 700 + step; bool thr = vmc::choose(2);
+              trace += std::string("assign_copy") + std::to_string(ty) + (thr ? "!" : "") + " ";
+              led.copies_allowed = true; int before = led.copies; led.throw_at_copy = thr ? led.copies + 1 : 0;
+              r[a].valid = false;
+              if (ty == 0) { Small x(v); *w[a] = x; } else if (ty == 1) { SmallThrow x(v); *w[a] = x; } else { Large x(v); *w[a] = x; }
+              led.throw_at_copy = 0; led.copies -= (led.copies - before);
+              r[a] = Ref{true, true, v};
+            }
+            break;
+          case 8:
+            if constexpr (!std::is_same_v<W, AU>) if (w[a]) {
+              int ty = vmc::choose(3); int v = 800 + step;
+              trace += "assign_move" + std::to_string(ty) + " ";
+              r[a].valid = false;
+              if (ty == 0) *w[a] = Small(v); else if (ty == 1) *w[a] = SmallThrow(v); else *w[a] = Large(v);
+              r[a] = Ref{true, true, v};
+            }
             break;
         }
       } catch (const injected&) {
@@ -92,7 +111,7 @@ void run_seq(int depth, bool with_swap) {
         // the exception propagated unchanged; the wrappers involved must stay destructible; their values are unspecified
         r[0].valid = r[1].valid = false;
         r[0].engaged = w[0].has_value(); r[1].engaged = w[1].has_value();
-        led.throw_at_move = 0;
+        led.throw_at_move = 0; led.copies -= (led.throw_at_copy ? 1 : 0); led.throw_at_copy = 0;
       }
       // a throwing CPO on the wrapped object propagates unchanged
       if (op == 5 && w[a] && r[a].valid && vmc::choose(4) == 0) {
